@@ -108,9 +108,9 @@ for d in sorted(glob.glob(os.path.join(ROOT, "refactors", "*"))):
     for l in open(rp):
         m = re.match(r"^(C\d\d): (.*)$", l.strip())
         if m:
-            alarm = "VIOLATION" in m.group(2)
-            nf = "no-failing-input-found" in m.group(2)
-            res.append("%s %s" % (m.group(1), ("**alarm (obligation broken, no failing input)**" if nf else "**ALARM**") if alarm else "green"))
+            alarm = "VIOLATION" in m.group(2).split("[re-run")[0]
+            nf = "no-failing-input-found" in m.group(2).split("[re-run")[0]
+            res.append("%s %s%s" % (m.group(1), ("**alarm (obligation broken, no failing input)**" if nf else "**ALARM**") if alarm else "green", " (re-run; first run alarmed)" if "[re-run" in m.group(2) else ""))
     summ = " ".join(str(meta.get("summary", "")).split())
     if len(summ) > 260:
         summ = summ[:257] + "…"
@@ -128,7 +128,7 @@ sec12 = "\n".join([
     "no failing input)` is the brief's `VIOLATION … no-failing-input-found` case — a translator or a model/implementation",
     "projection that the rewrite disturbed; each such case was analysed and the machinery corrected (last column).",
     "Files: `refactors/<name>/{patch.diff, meta.json, result.txt}`.", "",
-    "| refactor | what was changed | checks run → result (first run) | follow-up |", "|---|---|---|---|"] + rrows + [""])
+    "| refactor | what was changed | checks run → result | follow-up |", "|---|---|---|---|"] + rrows + [""])
 s = open(p, encoding="utf-8").read()
 pat12 = re.compile(r"^## 12\. False-alarm experiments.*?(?=^## \d+\. |\Z)", re.S | re.M)
 if pat12.search(s):
